@@ -4,7 +4,7 @@ import math
 from ..common import b2f, f2b
 from ..gen import gen_tree, infosets_of
 from ..ops import CaseBuilder
-from ..solvers import rand_params, draws_for, level_tree, alternating_tree
+from ..solvers import rand_params, draws_for, level_tree, alternating_tree, hidden_deal_tree, INF
 
 METHODS = ["full"]
 PID = "C06"
@@ -25,6 +25,10 @@ ASSUMPTIONS = ["atomic fetch_add/fetch_sub, Mutex and rayon's scope/par_drain/pa
 def config(rng, t, st, methods):
     method = rng.choice(methods)
     params = rand_params(rng)
+    if method != "external" and rng.random() < 0.15:
+        # "immediate forgetting" of positive regret: the discount factor is exactly zero, so the order of
+        # regret matching and discounting in the per-infoset update becomes visible
+        params = [-INF, rng.choice([-INF, 0.0, 1.0, INF]), rng.choice([0.0, 1.0, 2.0]), rng.choice([INF, 0.0, -0.5, 1.0])]
     T = rng.choice([1, 2, 2, 3, 3, 4, 10])
     r = rng.choice([0.0, 0.0, 0.0, -1.0, 1e-2, 0.5, 5.0])
     draws = draws_for(rng, t, st) if method != "full" else None
@@ -49,6 +53,15 @@ def generate(rng, tier, n, methods=METHODS):
     cases = []
     cid = 0
     reps = 4 if tier == "thorough" else 2
+    # contention: a large game in which every infoset is shared by all subtrees handed to the workers, many
+    # iterations, odd thread counts, repeated runs: a lost update on a shared cell shows as a thread-dependent result
+    if methods == METHODS:
+        for _ in range(2 if tier != "thorough" else 12):
+            t, st = hidden_deal_tree(rng, outcomes=rng.choice([8, 12]), depth=4, actions=3)
+            cases.append(build(cid, t, st, "full", rng.choice(["vanilla", "dcfr"]), rng.choice([40, 60]), 0.0, None,
+                               [5, 7, 12], 4, rng))
+            cases[-1].meta["contention"] = True
+            cid += 1
     while len(cases) < n:
         c = rng.random()
         ks = rng.sample([2, 3, 4, 8, 16], 2) + ([64] if rng.random() < 0.1 else [])
